@@ -1,6 +1,9 @@
 """Registry: properties -> units (verifier invocations) -> harnesses -> obligations."""
 K = '/verif/kani/'
-FFI = ['-Z', 'stubbing', '-Z', 'c-ffi', '--c-lib', K + 'libc_shim.c']
+# -Z restrict-vtable: a `dyn Trait` call may only resolve to implementations of that trait (without it
+# CBMC's function-pointer removal lets a `dyn Fn(&T)` call reach any two-pointer-argument function,
+# e.g. every Debug::fmt, and explores core::fmt - the dominant cost in the first measurements)
+FFI = ['-Z', 'stubbing', '-Z', 'c-ffi', '--c-lib', K + 'libc_shim.c', '-Z', 'restrict-vtable']
 
 LEDGER = {
  'A1': 'A1 memory model: SeqCst atomics are totally ordered; release sequences + acquire give happens-before (C11/Rust); Kani treats atomics as sequential operations',
@@ -39,6 +42,7 @@ UNITS['flag'] = dict(
         'c15_flag_set': dict(props=['C15', 'C14', 'C03']),
         'c15_flag_usize': dict(props=['C15', 'C14', 'C03']),
         'c15_cond_shutdown': dict(props=['C15', 'C14', 'C03']),
+        'c16_cond_default': dict(props=['C16', 'C14']),
     })
 
 obl('C15.SET', 'flag::register (action closure)', 'after each of two deliveries, with arbitrary application writes before and between, the flag is true')
@@ -58,7 +62,7 @@ PROPS['C15'] = dict(
 
 UNITS['siginfo'] = dict(
     name='siginfo', engine='kani', crate='.', inject=[('src/low_level/siginfo.rs', K + 'siginfo.rs')],
-    flags=['-Z', 'stubbing', '-Z', 'c-ffi', '--c-lib', '{scratch}/src/low_level/extract.c'], features='extended-siginfo',
+    flags=['-Z', 'stubbing', '-Z', 'c-ffi', '--c-lib', '{scratch}/src/low_level/extract.c', '-Z', 'restrict-vtable'], features='extended-siginfo',
     harnesses={'c17_extract': dict(props=['C17'])})
 FR = 'siginfo.rs: Origin::extract (+ ICause::has_process, From<ICause>, Process::extract) linked with the real extract.c'
 obl('C17.RS-SIGNAL', FR, 'origin.signal == si_signo')
@@ -76,7 +80,7 @@ for _o in ('C17.RS-SIGNAL', 'C17.RS-TABLE', 'C17.RS-PROCESS-IFF', 'C17.RS-PID'):
     REPLAYERS[_o] = _R.replay_c17_rs
 REPLAYERS['C16.KIND'] = _R.replay_c16_kind
 HOOK_COMMITS = []
-_HIDE = ('C02', 'C04', 'C05', 'C14', 'C09', 'C10')  # checks still being brought up; removed one by one
+_HIDE = ()
 NOT_APPLICABLE = {
  'C03': 'no check of its own: its obligations (read side wait-free, no lock / no wait inside a delivery, reader counts balanced, one system call per built-in action) are discharged inside the C01/C02/C09/C13/C15 checks; "never allocates or frees" cannot be expressed (Kani implements the allocator in its C runtime, it cannot be stubbed) and "bounded steps wherever other threads are paused" reduces to C01/C08; see DESIGN.md 9.2',
 }
@@ -101,10 +105,13 @@ obl('C16.ABORT-FALLBACK', F16, 'abort() is reached iff the restore failed or the
 obl('C16.DIRECT', F16, 'SIGKILL/SIGSTOP: raise(sig) only, verdict returned')
 obl('C16.UNKNOWN', F16, 'unknown signal: Err(EINVAL) and an empty libc trace')
 obl('C16.NO-EXIT', F16, 'never _exit/exit', never=True)
+obl('C16.COND', 'flag::register_conditional_default (action closure)', 'emulate_default_handler is invoked during a delivery iff the condition loads true, over two deliveries with arbitrary flips')
+obl('C16.COND-SIG', 'flag::register_conditional_default (action closure)', 'with the registered signal')
+obl('C16.COND-UNKNOWN', 'flag::register_conditional_default', 'unknown signal: Err before registering')
 obl('C16.NAME', 'low_level::signal_name', 'for all 0..=65: a returned name is a platform name of that number')
 obl('C16.NAME-RANGE', 'low_level::signal_name', 'all other c_int: None')
 PROPS['C16'] = dict(
-    level='proof', units=['sigdetails'],
+    level='proof', units=['sigdetails', 'flag'],
     trusted=L('A4', 'A5', 'A6', 'A10') + ['that the proved call sequence has the kernel default outcome (also inside the handler) is kernel semantics'],
     explanation='Kani proves, for every c_int, that emulate_default_handler issues exactly the libc call sequence of the platform default kind (oracle: table transcribed from signal(7)), and signal_name only returns platform names.')
 
@@ -142,34 +149,34 @@ PROPS['C13'] = dict(
 # --------------------------------------------------------------------------------------------
 _CH_STUB = dict(panic_map=[(r'option::expect_failed', 'C08.NO-PANIC-EXPECT')])
 UNITS['channel_priv'] = dict(
-    name='channel_priv', engine='kani', crate='.', inject=[('src/low_level/channel.rs', K + 'channel.rs'), ('src/low_level/channel.rs', K + 'channel_priv.rs', 'verif_kani_priv')], flags=['-Z', 'stubbing'],
+    name='channel_priv', engine='kani', crate='.', inject=[('src/low_level/channel.rs', K + 'channel.rs'), ('src/low_level/channel.rs', K + 'channel_priv.rs', 'verif_kani_priv')], flags=['-Z', 'stubbing', '-Z', 'restrict-vtable'],
     harnesses={
         'c06_bits': dict(props=['C06']),
         'c06_seq_dequeue': dict(props=['C06'], **_CH_STUB),
         'c06_seq_enqueue': dict(props=['C06'], **_CH_STUB),
     })
 UNITS['channel'] = dict(
-    name='channel', engine='kani', crate='.', inject=[('src/low_level/channel.rs', K + 'channel.rs')], flags=['-Z', 'stubbing'],
+    name='channel', engine='kani', crate='.', inject=[('src/low_level/channel.rs', K + 'channel.rs')], flags=['-Z', 'stubbing', '-Z', 'restrict-vtable'],
     harnesses={
         'c06_new': dict(props=['C06'], **_CH_STUB),
-        'c06_seq_send': dict(props=['C06', 'C07', 'C08'], auto_obl='C08.NO-PANIC', unwind_obl='C08.FROZEN', **_CH_STUB),
-        'c06_seq_recv': dict(props=['C06', 'C07', 'C08'], auto_obl='C08.NO-PANIC', unwind_obl='C08.FROZEN', **_CH_STUB),
+        'c06_seq_send': dict(props=['C06', 'C07', 'C08', 'C10'], auto_obl='C08.NO-PANIC', unwind_obl='C08.FROZEN', **_CH_STUB),
+        'c06_seq_recv': dict(props=['C06', 'C07', 'C08', 'C10'], auto_obl='C08.NO-PANIC', unwind_obl='C08.FROZEN', **_CH_STUB),
         'c07_drop_channel': dict(props=['C07']),
         'c07_send_sync_bounds': dict(props=['C07']),
-        'c08_frozen_send': dict(props=['C06', 'C07', 'C08'], auto_obl='C08.NO-PANIC', unwind_obl='C08.FROZEN', **_CH_STUB),
-        'c08_frozen_recv': dict(props=['C06', 'C07', 'C08'], auto_obl='C08.NO-PANIC', unwind_obl='C08.FROZEN', **_CH_STUB),
-        'c08_rg_send_k2': dict(props=['C06', 'C07', 'C08'], auto_obl='C08.NO-PANIC', unwind_obl='C08.BOUNDED', **_CH_STUB),
-        'c08_rg_recv_k2': dict(props=['C06', 'C07', 'C08'], auto_obl='C08.NO-PANIC', unwind_obl='C08.BOUNDED', **_CH_STUB),
-        'c08_rg_send_k4': dict(props=['C06', 'C07', 'C08'], tier='thorough', auto_obl='C08.NO-PANIC', unwind_obl='C08.BOUNDED', **_CH_STUB),
-        'c08_rg_recv_k4': dict(props=['C06', 'C07', 'C08'], tier='thorough', auto_obl='C08.NO-PANIC', unwind_obl='C08.BOUNDED', **_CH_STUB),
+        'c08_frozen_send': dict(props=['C06', 'C07', 'C08', 'C10'], auto_obl='C08.NO-PANIC', unwind_obl='C08.FROZEN', **_CH_STUB),
+        'c08_frozen_recv': dict(props=['C06', 'C07', 'C08', 'C10'], auto_obl='C08.NO-PANIC', unwind_obl='C08.FROZEN', **_CH_STUB),
+        'c08_rg_send_k2': dict(props=['C06', 'C07', 'C08', 'C10'], auto_obl='C08.NO-PANIC', unwind_obl='C08.BOUNDED', **_CH_STUB),
+        'c08_rg_recv_k2': dict(props=['C06', 'C07', 'C08', 'C10'], auto_obl='C08.NO-PANIC', unwind_obl='C08.BOUNDED', **_CH_STUB),
+        'c08_rg_send_k4': dict(props=['C06', 'C07', 'C08', 'C10'], tier='thorough', auto_obl='C08.NO-PANIC', unwind_obl='C08.BOUNDED', **_CH_STUB),
+        'c08_rg_recv_k4': dict(props=['C06', 'C07', 'C08', 'C10'], tier='thorough', auto_obl='C08.NO-PANIC', unwind_obl='C08.BOUNDED', **_CH_STUB),
     })
 FQ = 'channel.rs: '
 obl('C06.BITS', FQ + 'get, set', 'field algebra of the packed queue, all u16 x idx<5 x v<=7, incl. positions 3-4')
 obl('C06.DEQ', FQ + 'dequeue', 'sequential: pop-front on every well-formed word; None iff empty, unchanged')
 obl('C06.ENQ', FQ + 'enqueue', 'sequential: push-back on every well-formed non-full word')
 obl('C06.NEW', FQ + 'Channel::new', 'empty=[1,2,3,4,5], full=[], cells None')
-obl('C06.SEND', FQ + 'Channel::send', 'from every invariant state (frozen env): first free slot gets exactly the value and is appended behind all queued values; no other cell touched')
-obl('C06.RECV', FQ + 'Channel::recv', 'from every invariant state (frozen env): oldest value returned, order of the rest kept, slot freed, None iff nothing queued')
+obl('C06.SEND', FQ + 'Channel::send', 'from every invariant state (frozen env): first free slot gets exactly the value and is appended behind all queued values; no other cell touched', also=['C10'])
+obl('C06.RECV', FQ + 'Channel::recv', 'from every invariant state (frozen env): oldest value returned, order of the rest kept, slot freed, None iff nothing queued', also=['C10'])
 obl('C06.FULL-ONLY-WHEN-5', FQ + 'Channel::send', 'a send is discarded only if it observed the free queue empty (5 indices queued or in flight)')
 obl('C06.EMPTY-ONLY-WHEN-EMPTY', FQ + 'Channel::recv', 'None only if it observed the full queue empty')
 obl('C06.ATOMIC', FQ + 'enqueue, dequeue, send, recv', 'under arbitrary interference: every effect on a queue word is one successful CAS that is a pop-front/push-back of the expected value; a call has exactly the pops/pushes of its specification', also=['C07', 'C08'])
@@ -178,7 +185,7 @@ obl('C06.G-INV', FQ + 'send, recv', 'every step of the code preserves the channe
 obl('C06.NO-STORE', FQ + 'all', 'no plain store/swap on a queue word', never=True, absent_ok=r'Atomic :: < u16 > :: store -> u16_store')
 obl('C07.G-ACQ', FQ + 'dequeue', 'taking CAS has success ordering >= Acquire', also=['C06'])
 obl('C07.G-REL', FQ + 'enqueue', 'publishing CAS has success ordering >= Release', also=['C06'])
-obl('C07.EMPTY-MEANS-NONE', FQ + 'recv', 'an index goes back to `empty` only with its cell None (otherwise the next send overwrites an untaken value)', also=['C06'])
+obl('C07.EMPTY-MEANS-NONE', FQ + 'recv', 'an index goes back to `empty` only with its cell None (otherwise the next send overwrites an untaken value)', also=['C06', 'C10'])
 obl('C07.OWN-CELL', FQ + 'send, recv', 'cells are accessed only while their index is owned; exactly one cell access per effective call')
 obl('C07.DROP-ONCE', FQ + 'send', 'a discarded value is dropped exactly once')
 obl('C07.NO-EARLY-DROP', FQ + 'send, recv', 'successful send / recv drop nothing')
@@ -252,10 +259,20 @@ UNITS['backend'] = dict(
     harnesses={
         'c09_action': dict(props=['C09', 'C10', 'C03']),
         'c10_signal_only': dict(props=['C10']),
+        'c10_signal_only_atomic': dict(props=['C10']),
         'c10_pending_next': dict(props=['C10', 'C09']),
         'c09_pending_drain': dict(props=['C09']),
         'c11_close': dict(props=['C11']),
         'c11_poll_pending': dict(props=['C11', 'C09']),
+        'c11_closed_before_call': dict(props=['C11']),
+    })
+# Kani 0.68 crashes (internal compiler error) with -Z restrict-vtable on `self: Arc<Self>` methods of a
+# dyn trait (AddSignal::add_signal), so the harnesses that go through Handle::add_signal run without it
+_NOVT = [f for f in FFI if f != 'restrict-vtable'][:-1]
+UNITS['backend_c12'] = dict(
+    name='backend_c12', engine='kani', crate='.', inject=[('src/iterator/backend.rs', K + 'backend.rs')], flags=_NOVT,
+    scan=[K + 'libc_model.rs'], timeout={'quick': 1500, 'thorough': 3600},
+    harnesses={
         'c12_retry_raw': dict(props=['C12'], tier='thorough', kind='bounded', bound='bounded(one representative accepted signal, SIGUSR1, on the real 128-entry table)', panic_map=[(r'Init called multiple times', 'C12.RETRY')]),
         'c12_add_signal_rejected': dict(props=['C12', 'C14'], expected_panics=r'index out of bounds|assertion failed: signal >= 0|Signal number .* too large|placeholder message'),
     })
@@ -266,9 +283,6 @@ UNITS['backend_small'] = dict(
     rewrite=[('src/iterator/backend.rs', r'const MAX_SIGNUM: usize = 128;', 'const MAX_SIGNUM: usize = 4;', 1)],
     scan=[K + 'libc_model.rs'], timeout={'quick': 1500, 'thorough': 3600},
     harnesses={
-        'c12_add_and_drop': dict(props=['C12'], kind='bounded', bound=_SMALL),
-        'c12_retry_raw_small': dict(props=['C12'], kind='bounded', bound=_SMALL, panic_map=[(r'Init called multiple times', 'C12.RETRY')]),
-        'c12_ctor_clean': dict(props=['C12'], kind='bounded', bound=_SMALL),
         'c11_poll_signal_idle_f': dict(props=['C11', 'C09', 'C10'], kind='bounded', bound=_SMALL),
         'c11_poll_signal_idle_e': dict(props=['C11', 'C09', 'C10'], kind='bounded', bound=_SMALL),
         'c11_poll_signal_idle_tf': dict(props=['C11', 'C09', 'C10'], kind='bounded', bound=_SMALL),
@@ -276,6 +290,15 @@ UNITS['backend_small'] = dict(
         'c11_poll_signal_marked_tf': dict(props=['C11', 'C09', 'C10'], kind='bounded', bound=_SMALL),
         'c11_poll_signal_idle_ttf': dict(props=['C11', 'C09', 'C10'], tier='thorough', kind='bounded', bound=_SMALL),
         'c11_poll_signal_marked_te': dict(props=['C11', 'C09', 'C10'], tier='thorough', kind='bounded', bound=_SMALL),
+    })
+UNITS['backend_small_c12'] = dict(
+    name='backend_small_c12', engine='kani', crate='.', inject=[('src/iterator/backend.rs', K + 'backend.rs')], flags=_NOVT,
+    rewrite=[('src/iterator/backend.rs', r'const MAX_SIGNUM: usize = 128;', 'const MAX_SIGNUM: usize = 4;', 1)],
+    scan=[K + 'libc_model.rs'], timeout={'quick': 1500, 'thorough': 3600},
+    harnesses={
+        'c12_add_and_drop': dict(props=['C12', 'C14'], kind='bounded', bound=_SMALL),
+        'c12_retry_raw_small': dict(props=['C12'], kind='bounded', bound=_SMALL, panic_map=[(r'Init called multiple times', 'C12.RETRY')]),
+        'c12_ctor_clean': dict(props=['C12'], kind='bounded', bound=_SMALL),
     })
 FB = 'backend.rs: '
 obl('C09.SETUP', FB + 'PendingSignals::add_signal', 'accepted signal + registry Ok => Ok')
@@ -289,6 +312,8 @@ obl('C10.REGISTERED-SIG', FB + 'PendingSignals::add_signal', 'registers for the 
 obl('C10.ONLY-OWN-SLOT', FB + 'action closure', 'after deliveries of one signal only its own slot is marked (all 128 checked)')
 obl('C10.SET-ONLY', 'exfiltrator/mod.rs: SignalOnly::store', 'a delivery only stores true')
 obl('C10.CLEAR', 'exfiltrator/mod.rs: SignalOnly::load', 'Some(sig) iff the slot was marked; the mark is consumed atomically; at most one report per mark')
+obl('C10.CLEAR-ATOMIC', 'exfiltrator/mod.rs: SignalOnly::load', 'exactly one atomic RMW on the slot, no separate load/store')
+obl('C09.NO-DRAIN-AFTER-SCAN', FB + 'SignalIterator::poll_signal', 'a drain during the call is always followed by a scan from slot 0 before Signal/Pending is reported', kind='bounded(table of 4, concrete callback schedules)')
 obl('C10.INDEX-IS-SIG', FB + 'Pending::next', 'yields the first marked slot >= position as its own index')
 obl('C10.ADVANCE-ON-NONE', FB + 'Pending::next', 'position advances only past slots that reported None')
 obl('C10.POLL-REAL', FB + 'SignalIterator::poll_signal', 'Signal(s) only for a marked slot s')
@@ -303,6 +328,8 @@ obl('C12.ERR-PASSTHROUGH', FB + 'Handle::add_signal', 'Err iff registration fail
 obl('C12.REGISTER-ONCE', FB + 'Handle::add_signal', 'one registration attempt through the checked registry entry point, for the requested number', also=['C14'])
 obl('C12.RETRY', FB + 'Handle::add_signal + exfiltrator/raw.rs: WithRawSiginfo::init', 'after Err the same add_signal again behaves like a first call (no "Init called multiple times" panic)')
 obl('C12.IDEMPOTENT', FB + 'Handle::add_signal', 're-adding a watched signal: Ok, no registration')
+obl('C12.ATOMIC-ADD', FB + 'Handle::add_signal', 'the id-table mutex is held while the registry is asked to register (lookup and store are one critical section)', kind='bounded(table/representative signal)')
+obl('C12.TABLE-RELEASED', FB + 'Handle::add_signal', 'table lock free on return', kind='bounded(table/representative signal)')
 obl('C12.DROP-ALL', FB + 'DeliveryState::drop', 'unregister called exactly for the ids recorded, once each')
 obl('C14.ITER-REFUSE', FB + 'Handle::add_signal', 'never returns normally for negative / >= 128 / forbidden numbers (all c_int)', never=True)
 obl('C14.ITER-NO-REGISTER', FB + 'Handle::add_signal', 'the registry is never reached with a number outside 0..128')
@@ -310,7 +337,7 @@ _TI = L('A3', 'A4', 'A5', 'A7', 'A8', 'A10', 'A12')
 PROPS['C09'] = dict(level='other', units=['backend_small', 'backend'], trusted=_TI + ['"obtains it at least once" / "never parked with an unreported signal and no wake-up outstanding" is a liveness/whole-history statement: lemma L-PIPE over the proved ordering obligations + kernel socket semantics, not machine-checked'],
     technique='ordering obligations (store-then-wake, drain-then-scan, scan-all) as trace contracts on the real backend.rs, Kani/CBMC',
     explanation='Proved: the action stores then wakes; the consumer drains then scans every slot from 0; poll_signal maps callback answers faithfully. The no-lost-wakeup theorem over these is argued in DESIGN.md.')
-PROPS['C10'] = dict(level='proof', units=['backend', 'backend_small'], trusted=_TI + ['counting argument yields <= clears <= sets <= deliveries composed from the per-operation contracts (DESIGN.md C10)', 'info-carrying exfiltrators: at-most-once and order are the channel contracts C06/C07; faithful copy checked in unit backend_raw'],
+PROPS['C10'] = dict(level='proof', units=['backend', 'backend_small', 'channel'], trusted=_TI + ['counting argument yields <= clears <= sets <= deliveries composed from the per-operation contracts (DESIGN.md C10)', 'info-carrying exfiltrators: at-most-once and order are the channel contracts C06/C07; faithful copy checked in unit backend_raw'],
     explanation='Per-operation contracts: a delivery only sets its own slot; load clears atomically and echoes the slot index; next() yields exactly the first marked slot.')
 PROPS['C11'] = dict(level='proof', units=['backend', 'backend_small'], trusted=_TI + ['a blocked reader returns because close() writes a wake-up byte (kernel semantics)', 'callback answers true at most once per call in the harness (bounded)'],
     explanation='closed flag havoc-ed monotonically before every load (close() on another thread at any instant); sticky flag, close-then-wake, no callback after closed, Pending only if armed.')
@@ -320,7 +347,7 @@ obl('C12.DROP-NO-PANIC', FB + 'DeliveryState::drop', 'drop after a rejected addi
 obl('C12.RETRY-NATIVE', FB + 'Handle::add_signal + WithRawSiginfo::init', 'real OS refusal (signal 100) twice in a row returns Err twice', kind='bounded(native execution, 1 input)')
 UNITS['native_c12'] = dict(name='c12_survive', engine='static', module='native_unit', entry='run_native', source='/verif/native/c12_survive.rs',
                            deps='libc = "0.2"\nsignal-hook = { path = ".." }\n')
-PROPS['C12'] = dict(level='other', units=['backend', 'backend_small', 'native_c12'], trusted=_TI + ['Kani cannot unwind: state after a caught panic is decided by native execution on 9 representative rejected inputs (bounded), not proved for all c_int'],
+PROPS['C12'] = dict(level='other', units=['backend_c12', 'backend_small_c12', 'native_c12'], trusted=_TI + ['Kani cannot unwind: state after a caught panic is decided by native execution on 9 representative rejected inputs (bounded), not proved for all c_int'],
     technique='function contracts on add_signal/with_pipe/DeliveryState::drop (Kani) + native execution stand-in for post-panic state',
     explanation='add_signal over all accepted c_int with the registry answering Ok/Err nondeterministically, twice in a row; teardown unregisters exactly what was registered.')
 
@@ -333,6 +360,10 @@ _MAPRW = [(_RS, r'\A', '#![cfg_attr(kani, feature(allocator_api))]\n', 1),
           (_RS, r'(?m)^use std::collections::BTreeMap;', '#[cfg(not(kani))] use std::collections::BTreeMap;\n#[cfg(kani)] use verif_kani::OrdMap as BTreeMap;', 0)]
 _SHAPE_S = 'bounded(registry state: <= 2 signals, <= 1 action each, symbolic ids/next_id/signal numbers; inductive step, not a history)'
 _SHAPE_L = 'bounded(registry state: 2 signals with <= 2 and <= 1 actions, symbolic ids/next_id/signal numbers; inductive step)'
+# experiment: the same harnesses on the REAL std HashMap/BTreeMap (no map rewrite)
+UNITS['registry_real'] = dict(
+    name='registry_real', engine='kani', crate='signal-hook-registry', inject=[('signal-hook-registry/src/lib.rs', K + 'registry.rs'), ('signal-hook-registry/src/half_lock.rs', K + 'half_lock_contract.rs', 'verif_contract', 'pub(crate)')], flags=FFI,
+    rewrite=[(_RS, r'\A', '#![cfg_attr(kani, feature(allocator_api))]\n', 1)], harnesses={})
 UNITS['registry'] = dict(
     name='registry', engine='kani', crate='signal-hook-registry', inject=[('signal-hook-registry/src/lib.rs', K + 'registry.rs'), ('signal-hook-registry/src/half_lock.rs', K + 'half_lock_contract.rs', 'verif_contract', 'pub(crate)')], flags=FFI,
     rewrite=_MAPRW, scan=[K + 'libc_model.rs'], timeout={'quick': 1500, 'thorough': 3600},
@@ -346,7 +377,7 @@ UNITS['registry'] = dict(
         'c05_op_unregister_signal_small': dict(props=['C05', 'C18', 'C01', 'C02'], kind='bounded', bound=_SHAPE_S),
         'c05_op_register_occupied_small': dict(props=['C05', 'C02', 'C18', 'C01'], kind='bounded', bound=_SHAPE_S),
         'c04_op_register_vacant': dict(props=['C04', 'C05', 'C18'], kind='bounded', bound=_SHAPE_S),
-        'c02_op_handler': dict(props=['C02', 'C04', 'C03'], kind='bounded', bound=_SHAPE_L),
+        'c02_op_handler': dict(props=['C02', 'C04', 'C03', 'C18'], kind='bounded', bound=_SHAPE_L),
         'c14_op_register_refused': dict(props=['C14', 'C18'], kind='bounded', bound=_SHAPE_S),
         'c05_op_unregister': dict(props=['C05', 'C02', 'C18', 'C01'], tier='thorough', kind='bounded', bound=_SHAPE_L),
         'c05_op_unregister_signal': dict(props=['C05', 'C18', 'C01', 'C02'], tier='thorough', kind='bounded', bound=_SHAPE_L),
@@ -401,6 +432,6 @@ PROPS['C04'] = dict(level='other', units=['registry'], trusted=_TR,
 PROPS['C05'] = dict(level='other', units=['registry'], trusted=_TR,
     technique='per-operation function contracts with whole-view postconditions on register/unregister/unregister_signal + complete contract of Slot::new, Kani/CBMC',
     explanation='Each operation, from an arbitrary bounded-shape state satisfying the invariant, changes the view exactly as the model says (ids fresh and increasing, only the addressed action removed, slots never removed, handler installed once with SA_RESTART|SA_SIGINFO).')
-PROPS['C14'] = dict(level='proof', units=['registry', 'flag', 'pipe', 'backend'], trusted=_TR + L('A12'),
+PROPS['C14'] = dict(level='proof', units=['registry', 'flag', 'pipe', 'backend_c12', 'backend_small_c12'], trusted=_TR + L('A12'),
     technique='checks-before-effects contracts on every checked entry point over all c_int, Kani/CBMC',
     explanation='Registry entry points refuse forbidden numbers before touching global state; front-ends (flags, pipe, iterator) delegate to them with the same number (C15.SET-SIG, C13.REGISTER-ONCE, C12.REGISTER-ONCE/C14.ITER-*); OS refusals propagate without publishing.')
